@@ -2,7 +2,7 @@ package log
 
 //verif:witness H_C04_conserve end
 //verif:bound C04 quick async logger with buffer capacity 1..2 (capacity override on make(chan, BufferSize); the code never reads the capacity), 1..2 producers (first 1..2 items, second 1 item; thorough 1..2 each) (event with arbitrary int32 level against an arbitrary int32 logger range, or raw write), 3 policies, fast or slow (yielding) appender; pre-emption at yields and blocking operations only
-//verif:bound C04 thorough capacity 1..2, 2 producers x up to 2 items, pre-emption at every visible operation (channel, atomic, pool, yield) with at most 2 pre-emptive switches per schedule
+//verif:bound C04 thorough capacity 1..2, 2 producers x up to 2 items, pre-emption at every visible operation (channel, atomic, pool, yield) with at most 1 pre-emptive switch per schedule (switches forced by blocking are free)
 //verif:assume C04 producers are joined before Stop (the statement's premise 'once Stop has returned' read with C05's 'no log call concurrently in progress')
 //verif:assume C04 threads switch only at visible operations (channel ops, sync/atomic, sync.Pool, yields, thread exit); between them a thread runs atomically (sound for data-race-free code)
 //verif:engine-only H_C04_conserve
@@ -98,7 +98,7 @@ func vDeliveredIDs(app *vRecAppender) []int {
 func vSchedOpts() {
 	if vTier() > 0 {
 		vOpt("schedall", 1)
-		vOpt("preempt", 2)
+		vOpt("preempt", 1)
 	} else {
 		vOpt("preempt", 1)
 	}
